@@ -96,7 +96,8 @@ impl<T> Array<T> {
             None
         } else {
             let offset = index * self.strides[axis.0];
-            let data = &self.data[offset..];
+            // An array with a zero-length axis has no elements, so no offset is in range: the view is then empty
+            let data = self.data.get(offset..).unwrap_or(&[]);
             let shape = self.shape.remove_axis(axis);
             let strides = self.strides.remove_axis(axis);
 
